@@ -133,6 +133,29 @@ class ExprCanon(ast.NodeTransformer):
     def visit_Call(self, node):
         self.generic_visit(node)
         f = node.func
+        # (lambda a: E)(x) -> E[a := x];  (f if c else g)(x) -> f(x) if c else g(x)
+        if isinstance(f, (ast.Lambda, ast.IfExp)):
+            from .astutil import beta_reduce
+            red = beta_reduce(node)
+            if red is not node and not (isinstance(red, ast.Call) and isinstance(red.func, (ast.Lambda, ast.IfExp))):
+                return self.visit(red) if not isinstance(red, ast.Call) else red
+        # filter(f, X) -> (_v for _v in X if f(_v));  filter(None, X) -> (_v for _v in X if _v)
+        if isinstance(f, ast.Name) and f.id == 'filter' and len(node.args) == 2 and not node.keywords \
+                and not isinstance(node.args[1], ast.Starred) \
+                and (isinstance(node.args[0], (ast.Name, ast.Attribute, ast.Lambda, ast.IfExp)) or is_const(node.args[0], None)):
+            fn, coll = node.args
+            used = {n.id for n in ast.walk(node) if isinstance(n, ast.Name)}
+            var = '_v'
+            while var in used:
+                var += '_'
+            ref = ast.Name(id=var, ctx=ast.Load())
+            if is_const(fn, None):
+                test = ref
+            else:
+                from .astutil import beta_reduce
+                test = beta_reduce(ast.Call(func=fn, args=[ref], keywords=[]))
+            gen = ast.comprehension(target=ast.Name(id=var, ctx=ast.Store()), iter=coll, ifs=[test], is_async=0)
+            return at(ast.GeneratorExp(elt=ast.Name(id=var, ctx=ast.Load()), generators=[gen]), node)
         # f(**{'a': x, 'b': y}) -> f(a=x, b=y)
         if any(k.arg is None and isinstance(k.value, ast.Dict) and k.value.keys
                and all(isinstance(q, ast.Constant) and isinstance(q.value, str) and q.value.isidentifier() for q in k.value.keys)
@@ -463,6 +486,30 @@ def _canon_stmt(s, fresh=None) -> list:
         for t, v in zip(s.targets[0].elts, s.value.elts):
             parts.extend(_canon_stmt(at(ast.Assign(targets=[ast.Name(id=t.id, ctx=ast.Store())], value=v), s), fresh))
         return parts
+    # r = functools.reduce(f, X, init)  ->  r = init; for _x in X: r = f(r, _x)      (and the same for `return reduce(...)`)
+    if isinstance(s, (ast.Return, ast.Assign)) and isinstance(getattr(s, 'value', None), ast.Call) \
+            and ast.unparse(s.value.func) in ('functools.reduce', 'reduce') and len(s.value.args) == 3 and not s.value.keywords \
+            and not any(isinstance(a, ast.Starred) for a in s.value.args) \
+            and (isinstance(s, ast.Return) or (len(s.targets) == 1 and isinstance(s.targets[0], ast.Name))):
+        fn, coll, init = s.value.args
+        used = {n.id for n in ast.walk(s) if isinstance(n, ast.Name)}
+        acc = s.targets[0].id if isinstance(s, ast.Assign) else '_acc'
+        var = '_x'
+        while acc in used and isinstance(s, ast.Return):
+            acc += '_'
+        while var in used:
+            var += '_'
+        if not (isinstance(s, ast.Assign) and any(isinstance(n, ast.Name) and n.id == acc for a in s.value.args for n in ast.walk(a))):
+            step = ast.Call(func=fn, args=[ast.Name(id=acc, ctx=ast.Load()), ast.Name(id=var, ctx=ast.Load())], keywords=[])
+            out_ = [at(ast.Assign(targets=[ast.Name(id=acc, ctx=ast.Store())], value=init), s),
+                    at(ast.For(target=ast.Name(id=var, ctx=ast.Store()), iter=coll,
+                               body=[at(ast.Assign(targets=[ast.Name(id=acc, ctx=ast.Store())], value=step), s)], orelse=[]), s)]
+            if isinstance(s, ast.Return):
+                out_.append(at(ast.Return(value=ast.Name(id=acc, ctx=ast.Load())), s))
+            res = []
+            for o in out_:
+                res.extend(_canon_stmt(ast.fix_missing_locations(o), fresh))
+            return res
     # head, _, _ = E  ->  head = E[0]   (targets named `_` are never read)
     if isinstance(s, ast.Assign) and len(s.targets) == 1 and isinstance(s.targets[0], ast.Tuple) and not isinstance(s.value, (ast.Tuple, ast.List)) \
             and all(isinstance(t, ast.Name) for t in s.targets[0].elts):
@@ -1886,6 +1933,19 @@ class Normalizer:
         if isinstance(s, ast.Try):
             for h in s.handlers:
                 h.body = self.inline_block(h.body, fi, depth)
+        # 0. `X.extend(self._generator(...))` is `for _r in self._generator(...): X.append(_r)`
+        if isinstance(s, ast.Expr) and isinstance(s.value, ast.Call) and isinstance(s.value.func, ast.Attribute) and s.value.func.attr == 'extend' \
+                and len(s.value.args) == 1 and not s.value.keywords and isinstance(s.value.args[0], ast.Call):
+            r0 = self.resolve_callee(s.value.args[0], fi)
+            if r0 is not None and not isinstance(r0[0].node, ast.Lambda) and has_node(r0[0].node.body, (ast.Yield,)):
+                var = self.fresh('item')
+                loop = at(ast.For(target=ast.Name(id=var, ctx=ast.Store()), iter=s.value.args[0],
+                                  body=[at(ast.Expr(value=ast.Call(func=ast.Attribute(value=clone(s.value.func.value), attr='append', ctx=ast.Load()),
+                                                                    args=[ast.Name(id=var, ctx=ast.Load())], keywords=[])), s)], orelse=[]), s)
+                ast.fix_missing_locations(loop)
+                g = self.try_generator_inline(loop, fi)
+                if g is not None:
+                    return self.inline_block(g, fi, depth + 1) if depth < 4 else g
         # 0. `for x in self._generator(...): BODY`: the generator's body with BODY in place of every `yield`
         if isinstance(s, ast.For):
             g = self.try_generator_inline(s, fi)
